@@ -20,6 +20,7 @@ pub fn instrumented(rk: &RK) -> bool {
         | RK::MapWithOld { .. }
         | RK::BMap { .. }
         | RK::BMap2 { .. }
+        | RK::BMemo { .. }
         | RK::Memo { .. } => true,
         RK::Fold { srcs, .. } | RK::BFold { srcs, .. } => !srcs.is_empty(),
         _ => false,
@@ -468,6 +469,9 @@ impl Model {
         n.awaiting_invoke = true;
         n.last_run_pos = at;
         self.run_order.push((h, at));
+        if was_invalid && matches!(self.nodes[h].rk, RK::BMemo { .. }) {
+            viol!(self, at, "C20", "local-memo-node-outlived-its-scope", "node {} made by a constructor memoised inside a bind closure was recomputed after that bind re-ran", h);
+        }
         if was_invalid {
             viol!(self, at, "C03", "invalid-node-ran", "node {} was recomputed although it is invalid (its bind re-ran or an input is invalid)", h);
             return;
@@ -627,7 +631,7 @@ impl Model {
     fn expected_args(&self, h: Hid) -> Vec<(Hid, Option<MV>)> {
         let v = |x: Hid| (x, self.val(x));
         match &self.nodes[h].rk {
-            RK::Map { src, .. } | RK::MapP { src, .. } | RK::MapIP { src } | RK::MapWithOld { src, .. } | RK::BMap { src, .. } | RK::Memo { src, .. } => vec![v(*src)],
+            RK::Map { src, .. } | RK::MapP { src, .. } | RK::MapIP { src } | RK::MapWithOld { src, .. } | RK::BMap { src, .. } | RK::Memo { src, .. } | RK::BMemo { src, .. } => vec![v(*src)],
             RK::MapN { srcs, .. } => srcs.iter().map(|s| v(*s)).collect(),
             RK::BMap2 { a, b, .. } => vec![v(*a), v(*b)],
             _ => vec![],
@@ -791,5 +795,6 @@ pub fn kind_name(rk: &RK) -> &'static str {
         RK::BFold { .. } => "fold(in bind)",
         RK::BVar { .. } => "var(in bind)",
         RK::Memo { .. } => "memo node",
+        RK::BMemo { .. } => "node of a constructor memoised inside a bind",
     }
 }
